@@ -36,8 +36,31 @@ type c16Hist struct {
 }
 
 type c16Len struct {
-	NS int `json:"len_starts"`
-	NE int `json:"len_ends"`
+	NS   int    `json:"len_starts"`
+	NE   int    `json:"len_ends"`
+	RepS string `json:"starts_as,omitempty"` // how the slice is represented: nil, empty (non-nil, length 0), exact, spare (capacity beyond the length, filled with values)
+	RepE string `json:"ends_as,omitempty"`
+}
+
+// c16Slice builds a slice of n values v in the given representation ("" = exact).
+func c16Slice(n int, rep string, v int) ([]int, bool) {
+	switch rep {
+	case "nil":
+		return nil, n == 0
+	case "empty":
+		return []int{}, n == 0
+	case "spare":
+		b := make([]int, n+4)
+		for i := range b {
+			b[i] = v
+		}
+		return b[:n], true
+	}
+	b := make([]int, n)
+	for i := range b {
+		b[i] = v
+	}
+	return b, n > 0
 }
 
 type c16Race struct {
@@ -183,25 +206,43 @@ func runC16(r *core.Run) {
 			}
 		}, checkList)
 
-	core.Clause(r, "length-mismatch", core.Opts{Rule: "all (len starts, len ends) in 0..3 x 0..3: NewIndex panics iff the lengths differ; non-trivial = all"},
+	core.Clause(r, "length-mismatch", core.Opts{Rule: "all (len starts, len ends) in 0..3 x 0..3, each list in every representation of that length (nil, empty non-nil, exact, with spare capacity holding plausible values): NewIndex panics iff the lengths differ, and with equal lengths answers like the brute-force scan; non-trivial = all"},
 		func(emit func(c16Len) bool) {
 			for a := 0; a <= 3; a++ {
 				for b := 0; b <= 3; b++ {
-					emit(c16Len{a, b})
+					for _, ra := range []string{"nil", "empty", "exact", "spare"} {
+						for _, rb := range []string{"nil", "empty", "exact", "spare"} {
+							_, oka := c16Slice(a, ra, 0)
+							_, okb := c16Slice(b, rb, 0)
+							if oka && okb {
+								emit(c16Len{a, b, ra, rb})
+							}
+						}
+					}
 				}
 			}
 		},
 		func(c c16Len) core.Outcome {
-			starts, ends := make([]int, c.NS), make([]int, c.NE)
-			for i := range ends {
-				ends[i] = 5
-			}
-			p := catch(func() { regions.NewIndex(starts, ends) })
+			starts, _ := c16Slice(c.NS, c.RepS, 0)
+			ends, _ := c16Slice(c.NE, c.RepE, 5)
+			var idx *regions.Index
+			p := catch(func() { idx = regions.NewIndex(starts, ends) })
 			if c.NS != c.NE && p == "" {
-				return core.Failf("NewIndex with %d starts and %d ends did not panic", c.NS, c.NE)
+				return core.Failf("NewIndex with %d starts (%s) and %d ends (%s) did not panic", c.NS, c.RepS, c.NE, c.RepE)
 			}
 			if c.NS == c.NE && p != "" {
-				return core.Failf("NewIndex with equal lengths %d panicked: %s", c.NS, p)
+				return core.Failf("NewIndex with equal lengths %d (starts %s, ends %s) panicked: %s", c.NS, c.RepS, c.RepE, p)
+			}
+			if c.NS == c.NE {
+				for i := -1; i <= 6; i++ {
+					var got []int
+					if p := catch(func() { got = idx.At(i) }); p != "" {
+						return core.Failf("%d intervals [0,5) (starts %s, ends %s): At(%d) panicked: %s", c.NS, c.RepS, c.RepE, i, p)
+					}
+					if want := bruteAt(starts, ends, i); !(len(got) == 0 && len(want) == 0) && !slices.Equal(got, want) {
+						return core.Failf("%d intervals [0,5) (starts %s, ends %s): At(%d) = %v, want %v", c.NS, c.RepS, c.RepE, i, got, want)
+					}
+				}
 			}
 			return core.OK(fmt.Sprint("panic=", p != ""), true)
 		})
